@@ -43,8 +43,8 @@ def arena_line(model, align):
 def main():
     ck = Check("C12", "translation_validation")
     ck.lean_stage(["VelaVerif.Props.C12"])
-    n = 1500 if ck.thorough else 96
-    profiles = ["cpu", "mixed", "cpu", "cascade", "weights", "elementwise", "cpu", "lut"]
+    n = 6000 if ck.thorough else 320
+    profiles = ["cpu", "mixed", "pattern", "cascade", "weights", "pattern", "cpu", "lut", "pattern", "elementwise"]
     outs = pipe_common.run_corpus(ck, n, profiles=profiles, want=("out_model",), corpus_first=False)
     lines, owners, extra = [], [], []
     for o in outs:
